@@ -579,6 +579,7 @@ func c04Random(c *core.Ctx) {
 	o.RequiredPct = 50
 	o.ModChains = true
 	o.MaxDepth = 4
+	o.Coercers = c.R.Intn(3) == 0 // a custom coercer turns a present input into a value; it has no say about what an absent one means
 	n := gen.Schema(c.R, o)
 	addProbes(n)
 	for k := 0; k < 6; k++ {
